@@ -595,7 +595,7 @@ def kin(draw, prof, n):
     else:
         nst = draw(st.integers(1, 3))
         L.append(" -steps %s in %d steps" % (fmt(top), nst))
-    cv = draw(st.booleans())
+    cv = draw(st.integers(0, 2)) == 0
     L.append(" -cvode %s" % ("true" if cv else "false"))
     labels.append("kin_cvode" if cv else "kin_rk")
     if not cv and draw(st.integers(0, 2)) == 0:
